@@ -143,10 +143,13 @@ def lean_build(prop: str, tier: str, info: dict):
 
 
 def load_known():
+    out = []
     f = ROOT / "known_findings.json"
-    if not f.exists():
-        return []
-    return json.loads(f.read_text())
+    if f.exists():
+        out += json.loads(f.read_text())
+    for g in sorted((ROOT / "known").glob("*.json")):
+        out += json.loads(g.read_text())
+    return out
 
 
 def match_known(prop, fam, case, verdict, known):
